@@ -429,6 +429,9 @@ class Interp:
 
     def st_For(self, s, fr):
         it = self.eval(s.iter, fr)
+        if self._consume(it):
+            self.exec_block(s.orelse, fr)
+            return
         if hasattr(it, 'py_getitem') and not isinstance(it, SymList):
             hook = getattr(self, 'symloop_hook', None)
             if hook is not None and hook(self, s, fr, it):
@@ -569,6 +572,8 @@ class Interp:
 
     # ------------------------------------------------------------------ iteration
     def iterate(self, it, node=None):
+        if self._consume(it):
+            return []
         """concrete python list of the values an iterable yields (forking never; guarded lists
         are not iterable by statement loops)."""
         if isinstance(it, (tuple, list)):
@@ -844,7 +849,25 @@ class Interp:
         return self._comp(n, fr, 'list')
 
     def ex_GeneratorExp(self, n, fr):
-        return self._comp(n, fr, 'list')
+        r = self._comp(n, fr, 'list')
+        # the produced sequence stands for a generator object: whoever iterates it a second time finds it exhausted
+        if isinstance(r, (PList, SymList)):
+            r.one_shot = True
+        return r
+
+    def _consume(self, it):
+        """a generator-expression value is being iterated: True if it is already exhausted (iterate nothing)"""
+        if not getattr(it, 'one_shot', False):
+            return False
+        if getattr(it, 'consumed', False):
+            return True
+        it.consumed = True
+        if self.ctx is not None:
+            self.ctx.consumed_gens.append(it)
+        elif LOADING[0] == 0:
+            pass
+        note_global_write(it)
+        return False
 
     def ex_DictComp(self, n, fr):
         return self._comp(n, fr, 'dict')
